@@ -13,7 +13,7 @@ facts of daemon/proxyd.c -> lean/ZvbiModel/Generated/ProxyQLayout.lean (written 
                             or the number of lines copied (false)
      destroyStopsFirst      vbi_proxyd_destroy frees the queue before closing the clients (true)
      updReleasesLostGrant   vbi_proxyd_update_services releases the queue of a client whose grant became
-                            empty (true: the repair of defect D6) or does not touch the queue (false)
+                            empty (true: the repair of defect D7) or does not touch the queue (false)
    Any other shape of these four places makes the translator fail (the check then reports it).
 The harness prints the same numbers from the compiled daemon (`consts` op) and the check compares.
 """
